@@ -95,8 +95,11 @@ func c03CheckHashes(sdb *DbSqlite, msg string) {
 }
 
 // c03Graph wipes the freshly initialised store and builds an arbitrary DAG
-// below root0 with consistent hashes.
-func c03Graph(sdb *DbSqlite, maxExtra, ptsPerNode int) (present []bool) {
+// below root0 with consistent hashes. The placements of node `focus` (the
+// node about to be written) may carry an extra edge point, and the first
+// point of every node has a plain one-letter identity, so that the write can
+// also hit an existing identity with an older, equal or newer time.
+func c03Graph(sdb *DbSqlite, maxExtra, ptsPerNode, focus int) (present []bool) {
 	for _, t := range []string{"edges", "node_points", "edge_points"} {
 		_, err := sdb.db.Exec("DELETE FROM " + t)
 		vAssume(err == nil)
@@ -113,8 +116,13 @@ func c03Graph(sdb *DbSqlite, maxExtra, ptsPerNode int) (present []bool) {
 		vPutEdge(sdb, id, c03Nodes[pr[0]], c03Nodes[pr[1]], 0, "x")
 		tomb := data.Point{Type: data.PointTypeTombstone, Key: "0", Time: vPointShape(0).Time, Value: float64(vChoose(1 + vParam("tombmax", 1)))}
 		vPutEdgePoint(sdb, "ept"+id, id, tomb)
+		if pr[1] == focus && vParam("epts", 1) == 1 && vBool() {
+			ep := vPointShape(0)
+			vAssume(math.Float64bits(ep.Value) != 1<<63)
+			vPutEdgePoint(sdb, "epx"+id, id, ep)
+		}
 	}
-	for ni, n := range c03Nodes[:1+vParam("nodes", 2)] {
+	for _, n := range c03Nodes[:1+vParam("nodes", 2)] {
 		cnt := ptsPerNode
 		if vParam("nptsfix", 0) == 0 {
 			cnt = vChoose(ptsPerNode + 1)
@@ -122,7 +130,9 @@ func c03Graph(sdb *DbSqlite, maxExtra, ptsPerNode int) (present []bool) {
 		for k := 0; k < cnt; k++ {
 			p := vPointShape(0)
 			vAssume(math.Float64bits(p.Value) != 1<<63)                                // -0.0 cannot be in a REAL column
-			p.Type = p.Type + []string{"r", "x", "y", "z"}[ni] + []string{"0", "1"}[k] // distinct identities per node
+			if k > 0 {
+				p.Type = p.Type + "1" // distinct identities within the node
+			}
 			vPutNodePoint(sdb, "np"+n+[]string{"0", "1"}[k], n, p)
 			row++
 		}
@@ -137,15 +147,19 @@ func c03Graph(sdb *DbSqlite, maxExtra, ptsPerNode int) (present []bool) {
 
 func HarnessC03Write() {
 	sdb := vNewDB()
-	present := c03Graph(sdb, vParam("edges", 2), vParam("npts", 1))
-	c03CheckHashes(sdb, "harness pre-state satisfies the hash definition")
-
 	node := 1 + vChoose(vParam("nodes", 2))
 	id := c03Nodes[node]
+	present := c03Graph(sdb, vParam("edges", 2), vParam("npts", 1), node)
+	c03CheckHashes(sdb, "harness pre-state satisfies the hash definition")
+
 	var batch data.Points
 	for i, k := 0, 1+vChoose(vParam("batch", 1)); i < k; i++ {
 		p := vPoint(1)
-		vAssume(p.Type != data.PointTypeNodeType)
+		if i == 0 && vParam("del", 1) == 1 && vBool() {
+			// a deletion / un-deletion with an arbitrary (possibly out-of-date) time
+			p.Type, p.Key, p.Value = data.PointTypeTombstone, []string{"", "0"}[vChoose(2)], float64(vChoose(2))
+			vCover("c03: tombstone write")
+		}
 		batch = append(batch, p)
 	}
 	for i := range batch {
